@@ -1,4 +1,5 @@
 SPECIFICATION Spec
 CONSTANTS
   CountsIfndef = TRUE
+  CountsCloses = TRUE
 INVARIANT Report
